@@ -7,7 +7,11 @@ real handler code and only on paths where the environment cooperates (state back
  - a correctly signed new-view from a validator with an accepted certificate of a view >= the current one moves the
    replica to the following view (catch-up);
  - whenever a handler enters a new view it broadcasts the new-view for it, hands the justification to the proposer and
-   restarts the view timer; an accepted proposal produces a commit vote.
+   restarts the view timer; an accepted proposal produces a commit vote;
+ - drivers (props/replica_loop.py): the main loop times out immediately in view 0 and re-broadcasts a timeout vote whenever
+   the wait for input ends by the view deadline; the proposer, woken with a justification for a view this node leads,
+   creates a proposal (payload from the engine for the implied block after the previous block is persisted; none on a
+   forced re-proposal) and broadcasts it, survives a timed-out creation and stops only on an internal error.
 These are necessary conditions for the progress statement, not the statement; the bounded-views claim itself and the
 network/block-sync layers are outside."""
 from mirsym import models as M, env
@@ -31,4 +35,9 @@ def run(rep, db, tier, seed):
         replica_start.run(rep, db, tier)
     except Exception as u:
         rep.add(F.Obligation('restart restores the durable snapshot (StateMachine::start)', 'inconclusive', f'{type(u).__name__}: {u}'[:600]))
+    try:
+        from props import replica_loop
+        replica_loop.run(rep, db, tier, ('C06',))
+    except Exception as u:
+        rep.add(F.Obligation('proposer / main loop drivers', 'inconclusive', f'{type(u).__name__}: {u}'[:600]))
     rep.extra['explanation'] = 'local progress (retransmission / catch-up / view-entry) obligations on the real handler MIR; liveness itself is not decided'
